@@ -381,6 +381,9 @@ class _LinkDomain(Domain):
     the character HOLE stands for run-time text.  The flag `flagvar` (is
     the node currently expanded?) is fixed per run."""
 
+    model = None     # set by the rule: module constants are folded
+    fi = None
+
     def __init__(self, flagvar, flag):
         self.flagvar = flagvar
         self.flag = flag
@@ -405,7 +408,15 @@ class _LinkDomain(Domain):
         if isinstance(e, ast.Constant):
             return e.value if isinstance(e.value, str) else HOLE
         if isinstance(e, ast.Name):
-            return st.env.get(e.id, HOLE)
+            if e.id in st.env:
+                return st.env[e.id]
+            if self.model is not None and self.fi is not None and \
+                    not self.model.local_defs(self.fi, e.id):
+                # a module-level string constant (link format, icon)
+                ok, v = self.model.fold(e, self.fi)
+                if ok and isinstance(v, str):
+                    return v
+            return HOLE
         if isinstance(e, ast.IfExp):
             v = self.truth(e.test)
             if v is True:
@@ -578,6 +589,7 @@ def rule_link_agreement(model):
     # parts are holes), once for an expanded and once for a collapsed node
     for expanded in (True, False):
         dom = _LinkDomain('exp', expanded)
+        dom.model, dom.fi = model, wr
         Interp(dom, 200000).run(wr.node, _LinkState())
         for text in sorted(dom.texts):
             for k in _re.findall(r'(tree-[a-z])=', text):
